@@ -131,7 +131,16 @@ pub(crate) fn m_nth_parse() {
     }
 }
 
+/// An at-rule containing the given character between spaces is skipped in finite time (public API).
+pub(crate) fn m_css_progress() {
+    let c: u32 = kani::any();
+    let ch = char::from_u32(c).unwrap_or('#');
+    for css in [format!("@x {} ; p {{ color: red; }}", ch), format!("@x {}", ch), format!("@media ({}) {{ }} p {{ color: red; }}", ch)] {
+        let _ = crate::config::plain().add_css(&css);
+    }
+}
+
 crate::verif_common::registry! {
-    m_nth_parse, m_nth_child,
+    m_css_progress, m_nth_parse, m_nth_child,
     s3_selector_specificity,
 }
